@@ -136,8 +136,8 @@ Qed.
 Lemma access_body_sel W f E a0 rest :
   access_body W f E (a0 :: rest) =
   sel (object_key a0)
-      (let '(c, n) := value_access big_fuel (ec_imports E) rest in add_err n ;;; ret c)
-      (let '(c, n) := value_access big_fuel (ec_context E) rest in add_err n ;;; ret c)
+      (let '(c, n) := value_access (va_need (ec_imports E) rest) (ec_imports E) rest in add_err n ;;; ret c)
+      (let '(c, n) := value_access (va_need (ec_context E) rest) (ec_context E) rest in add_err n ;;; ret c)
       (walk W f E (EObj (ec_values E)) false (ec_base E) (ec_name E, []) (a0 :: rest)).
 Proof. reflexivity. Qed.
 
@@ -191,6 +191,15 @@ Proof. unfold open_tail. mono_tac. Qed.
 Ltac rel_refl := apply rel_ret; apply lo_c_refl.
 Ltac rel_bind_with R := apply (rel_bind R); [ | intro; mono_tac | intro; mono_tac | ].
 
+(* the two runs call [value_access] with the fuel each computes from its own chain; both can be read at one fuel *)
+Lemma value_access_need_lo c1 c2 accs : lo_c c1 c2 ->
+  va_rel (value_access (va_need c1 accs) c1 accs) (value_access (va_need c2 accs) c2 accs).
+Proof.
+  intros H. rewrite (HelperFuel.value_access_need_max c1 accs (va_need c2 accs)),
+                    (HelperFuel.value_access_need_max' c2 accs (va_need c1 accs)).
+  apply value_access_lo, H.
+Qed.
+
 Lemma rel_access_result (R : chain -> chain -> Prop) (r1 r2 : chain * N) :
   R (fst r1) (fst r2) -> snd r1 = snd r2 ->
   mrel R (let '(c, n) := r1 in add_err n ;;; ret c) (let '(c, n) := r2 in add_err n ;;; ret c).
@@ -224,8 +233,11 @@ Proof.
   intros HE HA. induction ps as [|[text [p|]] r IH]; intros acc1 acc2 unk sec Hacc.
   - rewrite !interp_go_nil. apply rel_ret, str_layer_lo. intros E. destruct unk; [reflexivity|auto].
   - rewrite !interp_go_ref. rel_bind_with (Forall2 lo_l); [now apply HA|].
-    + intros pv1 pv2 Hpv. pose proof (to_string_lo big_fuel _ _ Hpv) as HT.
-      destruct (to_string big_fuel pv1) as [[s1 u1] k1], (to_string big_fuel pv2) as [[s2 u2] k2].
+    + intros pv1 pv2 Hpv.
+      rewrite (HelperFuel.to_string_need_max pv1 (ts_need pv2)), (HelperFuel.to_string_need_max' pv2 (ts_need pv1)).
+      pose proof (to_string_lo (Nat.max (ts_need pv1) (ts_need pv2)) _ _ Hpv) as HT.
+      destruct (to_string (Nat.max (ts_need pv1) (ts_need pv2)) pv1) as [[s1 u1] k1],
+               (to_string (Nat.max (ts_need pv1) (ts_need pv2)) pv2) as [[s2 u2] k2].
       destruct HT as (Eu & Ek & Es). cbn [fst snd] in *. subst u2 k2. apply IH.
       intros Hs. apply Bool.orb_false_elim in Hs. destruct Hs as [Hs1 Hs2].
       rewrite (Hacc Hs1). destruct u1; [reflexivity|]. now rewrite (Es Hs2).
@@ -293,8 +305,8 @@ Lemma step_access f : P_walk f -> P_access (S f).
 Proof.
   intros HWk E1 E2 p HE. rewrite !eval_access_S. destruct p as [|a0 rest]; [rel_refl|].
   rewrite !access_body_sel. destruct (sel_cases (object_key a0)) as [S|[S|S]]; rewrite !S.
-  - pose proof (value_access_lo big_fuel _ _ rest (el_imports _ _ HE)) as [H1 H2]. now apply rel_access_result.
-  - pose proof (value_access_lo big_fuel _ _ rest (el_context _ _ HE)) as [H1 H2]. now apply rel_access_result.
+  - pose proof (value_access_need_lo _ _ rest (el_imports _ _ HE)) as [H1 H2]. now apply rel_access_result.
+  - pose proof (value_access_need_lo _ _ rest (el_context _ _ HE)) as [H1 H2]. now apply rel_access_result.
   - rewrite (el_name _ _ HE). apply HWk; [exact HE| |apply HE]. left. constructor. apply HE.
 Qed.
 
@@ -302,8 +314,8 @@ Ltac walk_default HP HE Hx Hrb :=
   rel_bind_with (Forall2 lo_l); [apply HP; [exact HE|exact Hx|exact Hrb]|];
   let v1 := fresh "v" in let v2 := fresh "v" in let Hv := fresh "Hv" in
   intros v1 v2 Hv;
-  match goal with |- mrel _ (let '(_, _) := value_access big_fuel _ ?accs in _) _ =>
-    pose proof (value_access_lo big_fuel _ _ accs Hv) as [? ?] end;
+  match goal with |- mrel _ (let '(_, _) := value_access (va_need _ ?accs) _ ?accs in _) _ =>
+    pose proof (value_access_need_lo _ _ accs Hv) as [? ?] end;
   now apply rel_access_result.
 
 Lemma step_walk f : P_expr f -> P_walk f -> P_walk (S f).
@@ -322,7 +334,7 @@ Proof.
       destruct (find_entry k l1 0) as [[i1 px1]|], (find_entry k l2 0) as [[i2 px2]|]; simpl in HF; try contradiction.
       * destruct HF as [_ HF]. apply HWk; [exact HE|left; exact HF|now apply property_lo].
       * rewrite (is_object_lo _ _ Hrb). destruct (is_object rb2); [|apply rel_add_err; rel_refl].
-        pose proof (value_access_lo big_fuel _ _ (a :: rest) Hrb) as [? ?]. now apply rel_access_result.
+        pose proof (value_access_need_lo _ _ (a :: rest) Hrb) as [? ?]. now apply rel_access_result.
     + (* ESecretPlain *)
       apply HWk; [exact HE| |constructor]. right. split; [reflexivity|eauto].
     + (* ESecretCipher *)
